@@ -104,6 +104,9 @@ BuildMism(e) ==
               : i \in 1..Len(e.topt)}
   \cup (IF e.write.k \notin outs THEN {"verdict:" \o e.write.k} ELSE {})
   \cup (IF e.vec.k # e.write.k \/ e.slice.k # e.write.k THEN {"sinks.verdicts_differ"} ELSE {})
+  \* a header set with extension headers is linked by the builder itself (set_next_headers in each of the three sinks):
+  \* a freshly linked chain serialises through every sink (C12)
+  \cup (IF ExtLen(c) > 0 /\ "ok" \in outs /\ (e.write.k # "ok" \/ e.vec.k # "ok" \/ e.slice.k # "ok") THEN {"chain.linked_by_builder_not_serialisable"} ELSE {})
   \cup (IF e.write.k = "ok" THEN
           (IF e.total # exp_size THEN {"size.written"} ELSE {})
           \cup (IF e.vec.same # 1 THEN {"sinks.write_to_vec_differs"} ELSE {})
